@@ -79,6 +79,15 @@ UserTransform(x) ==
         /\ UNCHANGED <<ok, epoch>>
         /\ last' = [act |-> "UserTransform", array |-> x, to |-> other, raises |-> ""]
 
+\* a value returned by Calc belongs to the caller: he may overwrite it in place (normalise it, subtract one, ...).  No step of this
+\* machine: the stored arrays, their flags and every later result are what they would have been.  (Not a disjunct of Next: the
+\* harness composes it into every Calc step - it scribbles on every returned object right after the call - so every enumerated
+\* history is also a history with all the scribbling a caller could do.)
+ScribbleReturned ==
+    /\ last.act = "Calc"
+    /\ UNCHANGED <<flag, rep, ok, epoch>>
+    /\ last' = [act |-> "ScribbleReturned", raises |-> ""]
+
 \* PRISM.solve(guess = own solution), allowed while omega is in the representation it was built in
 Resolve ==
     /\ epoch < MaxResolve
